@@ -249,18 +249,31 @@ def check_override_namespace(ck, R):
     prefix = tm[0][0][:-2]            # 'c/'
     stem = prefix.rstrip("/")
     ov = FA(ck, "storage_base.Codec.Strategy.output_key_for_override_key")
-    guards = []
-    for n in ov.cfg.nodes:
-        if n.kind == "test" and (prefix in A.strings_in(n.ast) or stem in A.strings_in(n.ast)):
-            guards.append(n)
+    kp = ov.fi.params[-1] if ov.fi.params else "override_key"
+    hits = [0]
+
+    def under_prefix(e):
+        """assumption: the override key is a (non-empty) key that lies under the content prefix"""
+        if isinstance(e, ast.Name) and e.id == kp:
+            return True
+        if isinstance(e, (ast.Compare, ast.Call)) and (prefix in A.strings_in(e) or stem in A.strings_in(e)) \
+                and kp in A.names_in(e) and not (isinstance(e, ast.Compare) and type(e.ops[0]) in (ast.NotEq, ast.NotIn, ast.IsNot)):
+            hits[0] += 1
+            return True
+        return None
+    asm = Assume(ov, under_prefix)
+    # an `assert` the assumption falsifies raises
+    failing = [n.id for n in ov.cfg.nodes if n.kind == "stmt" and isinstance(n.ast, ast.Assert) and asm.truth(n.ast.test, n.id) is False]
+    live = asm.reach(removed=failing)
     ok = False
-    for g in guards:
-        # on the guard's positive side the function does not return a key built from the raw override
-        raises = [r for r in ov.stmts(ast.Raise)]
-        if any(ov.inside(r, ov.pm.get(g.ast)) for r in raises if isinstance(ov.pm.get(g.ast), ast.If)):
-            ok = True
-        if any(A.call_attr(c) in ("replace", "quote", "format") for c in A.calls_in(ov.pm.get(g.ast)) if isinstance(ov.pm.get(g.ast), ast.If)):
-            ok = True
+    if ov.cfg.exit not in live:
+        ok = True        # refused on every path
+    else:
+        # or escaped: every key returned for such an override is rewritten (quoted / prefix replaced)
+        rets = [ov.cfg.node(i) for i in live if ov.cfg.node(i).kind == "stmt" and isinstance(ov.cfg.node(i).ast, ast.Return)]
+        ok = bool(rets) and all(r.ast.value is not None and any(A.call_attr(c) in ("replace", "quote") for c in A.calls_in(ov.expand(r.ast.value, r.id)))
+                                for r in rets)
+    ok = ok and hits[0] > 0
     ck.ob(R, ov.key(None, "override-outside-content-namespace"), ok,
           "override keys under %r are refused / escaped" % prefix if ok else
           "a key override is used verbatim, also when it lies under %r: KeyOverrideResult(x, '%s<sha of other bytes>') puts an object under a content "
@@ -561,6 +574,13 @@ def _rest(ck, fa, R3, R4, R5, R6):
     ck.ob(R6, mz.key(None, "before-put"), okb, "assigned before the memento is written" if okb else
           "the memento can be written before its content key is set", mz.where(asg))
     st = mz.one([c for c in mz.calls("store") if A.dotted(A.call_recv(c)) == "self.codec"], "codec.store call")
-    oks = [mz.xnorm(a, mz.nodes(st)[0]) for a in st.args] == ["memento.invocation_metadata.result_type", "self._data_source", "key_override", "result"]
+    # by the callee's parameter names, so positional and keyword spellings are the same call
+    cs = ck.repo.try_func("storage_base.Codec.store")
+    cparams = [p_ for p_ in (cs.params if cs is not None else ["self", "result_type", "data_source", "key_override", "obj"]) if p_ != "self"]
+    MP = mz.fi.params
+    want = ["%s.invocation_metadata.result_type" % (MP[2] if len(MP) > 3 else "memento"), "self._data_source",
+            MP[1] if len(MP) > 3 else "key_override", MP[3] if len(MP) > 3 else "result"]
+    got = [A.arg_or_kw(st, i, pn) for i, pn in enumerate(cparams[:4])]
+    oks = all(g is not None for g in got) and [mz.xnorm(a, mz.nodes(st)[0]) for a in got] == want
     ck.ob(R6, mz.key(None, "store-args"), oks, "store(result_type, data source, key_override, result)" if oks else
           "codec.store is not given (result_type, self._data_source, key_override, result)", mz.where(st))
